@@ -57,6 +57,26 @@ type c15Case struct {
 	Op string        `json:"op"`
 	A  []rang3.Range `json:"a"`
 	B  []rang3.Range `json:"b,omitempty"`
+	C  []rang3.Range `json:"c,omitempty"`
+}
+
+// c15Aliasing: the result of Subtract(a, b1), kept by the caller, must still be
+// the same ranges after Subtract(a, b2) and a Flatten have run.
+func c15Aliasing(a, b1, b2 []rang3.Range) (problem string) {
+	defer func() {
+		if x := recover(); x != nil {
+			problem = ""
+		}
+	}()
+	cp := func(x []rang3.Range) []rang3.Range { return append([]rang3.Range(nil), x...) }
+	kept := rang3.Subtract(cp(a), cp(b1))
+	before := rangesText(kept)
+	rang3.Subtract(cp(a), cp(b2))
+	rang3.Flatten(cp(b2), func(oa, ob, n rang3.Range) {})
+	if after := rangesText(kept); after != before {
+		return fmt.Sprintf("the first result was %s; after the second call the slice the caller holds reads %s", before, after)
+	}
+	return ""
 }
 
 func rangesText(rs []rang3.Range) string {
@@ -260,14 +280,15 @@ func c15Classes(quick bool) []*lexref.Class {
 	for _, c := range plain {
 		out = append(out, c, &lexref.Class{Neg: true, Items: c.Items})
 	}
-	// differences: [x]-[y], ~[x]-[y], [x]-~[y] over the thin menu
+	// differences: [x]-[y], ~[x]-[y], [x]-~[y], ~[x]-~[y] over the thin menu
 	for i := range thin {
 		for j := range thin {
 			a, b := []lexref.ClassItem{thin[i]}, []lexref.ClassItem{thin[j]}
 			out = append(out,
 				&lexref.Class{Items: a, Sub: &lexref.Class{Items: b}},
 				&lexref.Class{Neg: true, Items: a, Sub: &lexref.Class{Items: b}},
-				&lexref.Class{Items: a, Sub: &lexref.Class{Neg: true, Items: b}})
+				&lexref.Class{Items: a, Sub: &lexref.Class{Neg: true, Items: b}},
+				&lexref.Class{Neg: true, Items: a, Sub: &lexref.Class{Neg: true, Items: b}})
 		}
 	}
 	return out
@@ -311,11 +332,23 @@ func c15Worker(c *mc.Ctx) {
 		if !c.Mine(int64(i)) {
 			continue
 		}
+		var prevB []rang3.Range
 		for _, b := range shortLists {
 			c.Stats.Evaluations++
 			if p := c15Subtract(a, b); p != "" {
 				report("Subtract", a, b, p)
 			}
+			// a result that the caller keeps must not change when Subtract (or
+			// Flatten) is called again: class expressions hold the ranges of one
+			// operand while the other one is computed
+			if prevB != nil {
+				if p := c15Aliasing(a, prevB, b); p != "" {
+					raw, _ := json.Marshal(c15Case{Op: "Subtract-aliasing", A: a, B: prevB, C: b})
+					c.Stats.Violate(mc.Violation{Property: "C15", Check: "C15", Kind: "rang3-Subtract-aliasing", Size: len(a) + len(b), Case: raw,
+						Detail: fmt.Sprintf("Subtract(%s, %s) then Subtract(%s, %s): %s", rangesText(a), rangesText(prevB), rangesText(a), rangesText(b), p)})
+				}
+			}
+			prevB = b
 		}
 	}
 	c.Stats.Add("rang3_cases", c.Stats.Evaluations)
@@ -451,6 +484,8 @@ func c15Replay(raw json.RawMessage) *mc.Violation {
 			p = c15Normalize(rc.A)
 		case "Subtract":
 			p = c15Subtract(rc.A, rc.B)
+		case "Subtract-aliasing":
+			p = c15Aliasing(rc.A, rc.B, rc.C)
 		}
 		if p == "" {
 			return nil
@@ -464,8 +499,8 @@ func init() {
 	mc.Register(&mc.Check{
 		ID:    "C15",
 		Level: "exploration",
-		Rule: "(a) rang3.Flatten and rang3.Normalize on every list of up to 3 (quick) / 4 (thorough) ranges with end points in {0,1,2,3,0x10FFFC..0x10FFFF}, rang3.Subtract on every pair of lists of up to 2 ranges, compared with the harness's interval arithmetic (sortedness, disjointness, same set, exact partition of every original range); " +
-			"(b) class expressions [..], ~[..], [..]-[..] with items and ranges over boundary code points (0, \\t \\n \\r, '-', '\\\\', ']', 0x7F/0x80, 0xD7FF/0xE000, 0xFFFD, 0x10FFFE/0x10FFFF) and literals of up to 3 code points, written as lox text, through the real front end to the emitted table: product search of the real state machine against the set-theoretic meaning on both end points and a middle point of every atom; " +
+		Rule: "(a) rang3.Flatten and rang3.Normalize on every list of up to 3 (quick) / 4 (thorough) ranges with end points in {0,1,2,3,0x10FFFC..0x10FFFF}, rang3.Subtract on every pair of lists of up to 2 ranges (and: a result kept by the caller is unchanged after the next calls), compared with the harness's interval arithmetic (sortedness, disjointness, same set, exact partition of every original range); " +
+			"(b) class expressions [..], ~[..], [..]-[..], ~[..]-[..], [..]-~[..], ~[..]-~[..] with items and ranges over boundary code points (0, \\t \\n \\r, '-', '\\\\', ']', 0x7F/0x80, 0xD7FF/0xE000, 0xFFFD, 0x10FFFE/0x10FFFF) and literals of up to 3 code points, written as lox text, through the real front end to the emitted table: product search of the real state machine against the set-theoretic meaning on both end points and a middle point of every atom; " +
 			"(c) rule sets of overlapping classes (range splitting feeding on its own output, then merging), including every specification of 3 rules that are each one range over the points a..f and of 4 over a..e (thorough: 4 over a..f, 5 over a..d), and the same classes written with verbatim non-ASCII characters; non-trivial = lists of >= 3 ranges and class specifications searched",
 		Assume: []string{"reference: internal/ivl interval sets", "surrogate code points cannot be written with \\u escapes (they fold to U+FFFD) and are outside the domain"},
 		Worker: c15Worker,
